@@ -181,8 +181,22 @@ class C06(PropBase):
                 out.append(self.mk("cfg-offset-seconds", txn(ts=ts), cfg={"tz": {"offset": off}}))
         return out
 
+    def repo_examples(self):
+        """the journals the repository ships (examples/*/txns/*.txn): read from the tree under test on every run"""
+        import glob
+        import os
+        out = []
+        root = os.path.realpath(os.environ.get("TK_REPO", "/repo"))
+        for f in sorted(glob.glob(os.path.join(root, "examples", "*", "txns", "*.txn"))):
+            try:
+                text = open(f, encoding="utf-8").read()
+            except (OSError, UnicodeDecodeError):
+                continue
+            out.append(self.mk("repo-example", text))
+        return out
+
     def gen(self, rng, tier, focus=None):
-        out = list(self.boundary(rng))
+        out = list(self.boundary(rng)) + self.repo_examples()
         n = 700 if tier == "quick" else 25000
         for i in range(n):
             cfg = {}
